@@ -45,7 +45,7 @@ def op_list(draw, maxlen=8, allow_other=False, allow_singular=False, pmax=4, nee
         elif c == "GSSVX":
             ops.append("GSSVX P=%d fact=%s trans=%s symm=%d u=%s nrhs=%d%s" % (P, draw(st.sampled_from(["DOFACT", "EQUILIBRATE"])), draw(st.sampled_from(["N", "T"])),
                                                                           0, 1.0, draw(st.sampled_from([1, 2])), draw(sched_tokens(P))))
-            if sym_ok and draw(st.booleans()):     # symmetric mode: threshold 0 on a matrix with a dominant diagonal (C16's precondition)
+            if sym_ok and not any("vals=zerocol" in o for o in ops) and draw(st.booleans()):     # symmetric mode (never after a column was zeroed: the diagonal is no longer dominant): threshold 0 on a matrix with a dominant diagonal (C16's precondition)
                 ops[-1] = ops[-1].replace("symm=0 u=1.0", "symm=1 u=0.0")
         elif c == "GSSV":
             ops.append("GSSV P=%d nrhs=%d%s" % (P, draw(st.sampled_from([1, 2])), draw(sched_tokens(P))))
